@@ -534,3 +534,62 @@ func checkTreeHandedOver(r *Run, prog *Program, a *Anchors, pfx string) {
 		r.Check(pfx+".tree-handover", "Evaluate:returns", prog.pos(sm.Ret.Pos()), ok, "Evaluate must return the dispatcher's (bool, error) pair unchanged on every path; returns ("+shortKey(b)+", "+shortKey(e)+")")
 	}
 }
+
+// staticCallers: the functions that call fn (call-graph in-edges), through synthetic wrappers.
+func (p *Program) staticCallers(fn *ssa.Function) []*ssa.Function {
+	var out []*ssa.Function
+	seen := map[*ssa.Function]bool{}
+	if n := p.CG.Nodes[fn]; n != nil {
+		for _, e := range n.In {
+			c := e.Caller.Func
+			if !seen[c] {
+				seen[c] = true
+				out = append(out, c)
+			}
+		}
+	}
+	sort.Slice(out, func(i, j int) bool { return out[i].String() < out[j].String() })
+	return out
+}
+
+// contextOnly: fn can only ever run as a statically resolved call from functions accepted by `within`: it is an
+// unexported, non-recursive function of the module that is never used as a value. Such a function may be judged in the
+// context of each of its callers instead of on its own.
+func (p *Program) contextOnly(fn *ssa.Function, within func(*ssa.Function) bool) bool {
+	if !p.InModule(fn) || len(fn.Blocks) == 0 {
+		return false
+	}
+	if o := fn.Object(); o != nil && o.Exported() {
+		return false
+	}
+	n := p.CG.Nodes[fn]
+	if n == nil || len(n.In) == 0 {
+		return false
+	}
+	for _, e := range n.In {
+		c := e.Caller.Func
+		if c == fn {
+			return false // recursive
+		}
+		if isSynthetic(c) {
+			// a wrapper (pointer-receiver form of a value method, bound-method closure): acceptable only if nothing uses it
+			if cn := p.CG.Nodes[c]; cn != nil && len(cn.In) > 0 {
+				return false
+			}
+			continue
+		}
+		if e.Site == nil || e.Site.Common().StaticCallee() != fn || !within(c) {
+			return false
+		}
+	}
+	// never used as a value: every referrer of the function is the callee operand of a call
+	if refs := fn.Referrers(); refs != nil {
+		for _, r := range *refs {
+			c, ok := r.(ssa.CallInstruction)
+			if !ok || c.Common().Value != ssa.Value(fn) {
+				return false
+			}
+		}
+	}
+	return true
+}
